@@ -69,11 +69,111 @@ func checkC08(t *testing.T, job *Job, res *Result) {
 				scs = append(scs, c08Scenario(c08cfg{pre, cmd}))
 			}
 		}
+		for _, pre := range []string{"deployed", "resumed", "resumed-after-stop"} {
+			for _, cmd := range []string{"stop", "pause"} {
+				scs = append(scs, c08FirstRequests(pre, cmd))
+			}
+		}
 		b := Bounds{D: 2, S: 0}
 		runS(t, job, res, "C08", scs, b, 0)
 	}
 	res.Engine = "S+H"
+	res.Rule += "; stop/pause racing with the first requests after a deploy or a resume; afterwards every request must meet the closed gate"
 	res.Rule += "; engine S part: stop/resume/pause completing while the same service is being redeployed (from running, stopped, paused), every schedule with <=2 thread deviations; afterwards requests and list must show the state the gate command set"
+}
+
+// c08FirstRequests: the first requests a service sees after being deployed (or resumed) race with stop / pause;
+// once the command has returned, no request may pass.
+func c08FirstRequests(pre, cmd string) *Scenario {
+	sc := &Scenario{Name: fmt.Sprintf("C08-S first requests after %s || %s", pre, cmd), Horizon: 60 * time.Second}
+	const host = "a.example.com"
+	var racers, after []*ReqObs
+	var health *ReqObs
+	sc.Run = func(w *World) {
+		racers, after, health = nil, nil, nil
+		w.AddTarget("oa:80")
+		if r := w.Deploy(deployArgs("s1", []string{"oa:80"}, []string{host}, nil)); r.Err != nil {
+			w.Note("setup: %v", r.Err)
+			return
+		}
+		switch pre {
+		case "resumed":
+			w.Pause("s1", vD, 20*time.Second)
+			w.Resume("s1")
+		case "resumed-after-stop":
+			w.Stop("s1", vD, "before")
+			w.Resume("s1")
+		}
+		time.Sleep(100 * time.Millisecond)
+		var wg vsync.WaitGroup
+		w.S.SetWindow(true)
+		for i := 0; i < 2; i++ {
+			wg.Add(1)
+			i := i
+			vsched.GoTagged("client", func() {
+				defer wg.Done()
+				r := w.Do(ReqSpec{ID: fmt.Sprintf("first%d", i), Host: host, Path: "/"})
+				w.mu.Lock()
+				racers = append(racers, r)
+				w.mu.Unlock()
+			})
+		}
+		wg.Add(1)
+		vsched.GoTagged("cmd", func() {
+			defer wg.Done()
+			if cmd == "stop" {
+				w.Stop("s1", vD, "closed <now>")
+			} else {
+				w.Pause("s1", vD, 20*time.Second)
+			}
+		})
+		wg.Wait()
+		w.S.SetWindow(false)
+		time.Sleep(50 * time.Millisecond)
+		for i := 0; i < 2; i++ {
+			i := i
+			vsched.GoTagged("client", func() {
+				r := w.Do(ReqSpec{ID: fmt.Sprintf("after%d", i), Host: host, Path: "/x"})
+				w.mu.Lock()
+				after = append(after, r)
+				w.mu.Unlock()
+			})
+		}
+		health = w.Do(ReqSpec{ID: "health", Host: host, Path: vHealthPath})
+		time.Sleep(50 * time.Millisecond)
+	}
+	sc.Check = func(w *World) []Violation {
+		var vs []Violation
+		for _, n := range w.Notes {
+			vs = append(vs, Violation{"C08", "setup", n})
+		}
+		for _, cm := range w.Cmds {
+			if cm.Err != nil {
+				vs = append(vs, Violation{"C08", "command-failed", cm.Name + ": " + cm.Err.Error()})
+			}
+		}
+		if len(vs) > 0 {
+			return vs
+		}
+		w.mu.Lock()
+		defer w.mu.Unlock()
+		for _, r := range after {
+			if r.Status == 200 && r.ServedBy() != "" {
+				vs = append(vs, Violation{"C08", "request-forwarded-after-" + cmd + "-returned", fmt.Sprintf("after %s (which raced with the first requests since the service was %s) request %s was forwarded to %s", cmd, pre, r.ID, r.ServedBy())})
+			} else if cmd == "stop" && !(r.Status == 503 && strings.Contains(string(r.Body), "closed &lt;now&gt;")) {
+				vs = append(vs, Violation{"C08", "stop-message-missing-or-not-escaped", fmt.Sprintf("request %s after the stop got %s", r.ID, r.Summary())})
+			}
+		}
+		if cmd == "stop" && len(after) != 2 {
+			vs = append(vs, Violation{"C08", "request-not-answered-while-stopped", fmt.Sprintf("%d of 2 requests answered", len(after))})
+		}
+		// (paused: the requests are held; they are answered 504 when their max-pause expires during teardown)
+		if health == nil || health.Status != 200 || health.ServedBy() != "" {
+			vs = append(vs, Violation{"C08", "health-check-GET-not-answered-by-proxy", fmt.Sprint(health != nil && health.Done)})
+		}
+		return vs
+	}
+	return sc
 }
 
 // ---- engine S part: a gate command overlapping a redeploy of the same service
